@@ -337,7 +337,7 @@ def case_strategy(draw):
 
 
 def shards(tier):
-    return [{'name': 'cases-%d' % i, 'kind': 'hyp', 'examples': 500 if tier == 'quick' else 30000, 'hypothesis': True}
+    return [{'name': 'cases-%d' % i, 'kind': 'hyp', 'examples': 1500 if tier == 'quick' else 30000, 'hypothesis': True}
             for i in range(12 if tier == 'quick' else 16)]
 
 
